@@ -703,8 +703,11 @@ fn determinism_pass(tier: Tier) -> Acc {
                 continue;
             }
             for ext in exts {
-                for (d, w) in [(4usize, 4.0f64), (3, 1.0)] {
-                    let g = mk(shape, &massive, &vec![w; ne], ext, d);
+                // uniform large weights (accepted), uniform unit weights, and non-associative weights (order of any
+                // accumulation over a hash set would show in the last bit of a sum)
+                let nonassoc = [1.1, 1.2, 1.3, 0.7, 0.9];
+                for (d, ws) in [(4usize, vec![4.0f64; ne]), (3, vec![1.0; ne]), (3, (0..ne).map(|e| nonassoc[e % 5]).collect::<Vec<f64>>()), (2, (0..ne).map(|e| nonassoc[(e + 2) % 5] + 1.0).collect::<Vec<f64>>())] {
+                    let g = mk(shape, &massive, &ws, ext, d);
                     set_hash_order(None);
                     let base = build_fingerprint(&g);
                     let again = build_fingerprint(&g);
